@@ -954,3 +954,254 @@ Module ValueExamples.
       try (vm_compute; reflexivity). left. vm_compute. reflexivity.
   Qed.
 End ValueExamples.
+
+(* ================= 5. THE BRIDGE, prefixes: the strict loop processes the rendering of any item prefix of a line
+   whose forms are right and whose values fit in number - scans, the hypothesis of the prefix theorems of
+   ClassifyLemmas (clauses 1-3) ================= *)
+Definition prefix_line (d : ld) (k : nat) : ld :=
+  {| ld_names := ld_names d; ld_items := firstn k (ld_items d); ld_tail := None |}.
+(* the tokens of the command names and of the first k items / of the remaining items and the "--" tail *)
+Definition prefix_toks (d : ld) (k : nat) : list str := render (prefix_line d k).
+Definition suffix_toks (d : ld) (k : nat) : list str :=
+  flat_map render_item (skipn k (ld_items d)) ++ render_tail (ld_tail d).
+(* the line with one more token at the k-th item boundary *)
+Definition insert_tok (d : ld) (k : nat) (tok : str) : list str := prefix_toks d k ++ tok :: suffix_toks d k.
+
+Lemma render_split d k : render d = prefix_toks d k ++ suffix_toks d k.
+Proof.
+  unfold prefix_toks, suffix_toks, render, prefix_line. cbn [ld_names ld_items ld_tail render_tail].
+  rewrite app_nil_r, <- !app_assoc. f_equal. rewrite app_assoc, <- flat_map_app, firstn_skipn. reflexivity.
+Qed.
+
+Lemma items_form_firstn f g : forall l k, items_form f g l = true -> items_form f g (firstn k l) = true.
+Proof.
+  induction l as [|it r IH]; intros k H; [destruct k; reflexivity|]. destruct k as [|k]; [reflexivity|].
+  cbn [firstn items_form] in *. apply andb_prop in H as [H Hr]. apply andb_prop in H as [Hi Hla].
+  rewrite Hi, (IH k Hr). cbn [andb]. rewrite andb_true_r.
+  destruct (looks_ahead it); [|reflexivity]. destruct r as [|it2 r']; [destruct k; reflexivity|].
+  destruct k; [reflexivity|]. exact Hla.
+Qed.
+
+Lemma scans_rendered_prefix_gen f g A cns d k :
+  fmt_facts f g A cns -> Spell.names_ok cns (ld_names d) = true -> items_form f g (ld_items d) = true ->
+  shape A (ld_names d ++ values d) = true ->
+  scans g (prefix_toks d k) (line_state A (prefix_line d k)).
+Proof.
+  intros FF Hn Hit Hsh. apply (scans_rendered_line f g A cns (prefix_line d k) FF); cbn [prefix_line ld_names ld_items];
+    [exact Hn|apply items_form_firstn; exact Hit|].
+  unfold values in *. cbn [ld_items ld_tail]. rewrite app_nil_r.
+  rewrite <- (firstn_skipn k (ld_items d)), flat_map_app, <- app_assoc, app_assoc in Hsh.
+  eapply shape_app_l. exact Hsh.
+Qed.
+
+(* none of those tokens is the "--" separator *)
+Lemma starts_dd_is_dd tok : starts_dd tok = false -> is_dd tok = false.
+Proof. unfold is_dd. destruct (str_eqb_spec tok [DASH; DASH]) as [->|]; [discriminate|reflexivity]. Qed.
+Lemma plain_no_dd s : plain_tok s = true -> is_dd s = false.
+Proof.
+  unfold plain_tok. intros H. apply andb_prop in H as [_ H]. apply negb_true_iff in H.
+  unfold is_dd. destruct (str_eqb_spec s [DASH; DASH]) as [->|]; [discriminate|reflexivity].
+Qed.
+Lemma pos_no_dd s : pos_tok s = true -> is_dd s = false.
+Proof.
+  unfold pos_tok, is_dd. destruct (str_eqb_spec s [DASH; DASH]) as [->|]; [discriminate|reflexivity].
+Qed.
+Lemma long_no_dd o x : nonempty (o_long o) = true -> is_dd (long_tok o ++ x) = false.
+Proof. intros H. now destruct (long_tok_class o x H) as (_ & H2 & _). Qed.
+Lemma short_no_dd g o x : Spell.short_ok g o = true -> is_dd (short_tok o ++ x) = false.
+Proof.
+  intros H. apply short_ok_inv in H as [c Hs]. unfold short_tok. rewrite (short_char_known g o c Hs). cbn [app].
+  pose proof Hs as (_ & Hd & _ & _). destruct (short_tok_class c x Hd) as (_ & T2 & _). apply starts_dd_is_dd, T2.
+Qed.
+Lemma render_item_no_dd f g it : item_form f g it = true -> existsb is_dd (render_item it) = false.
+Proof.
+  destruct it as [o long|o form s|o long|fl last|s]; cbn [item_form]; intros H.
+  - apply andb_prop in H as [H Hform]. apply andb_prop in H as [Hok _]. apply opt_ok_inv in Hok as (_ & _ & Hne & _).
+    destruct long; cbn [render_item existsb]; rewrite orb_false_r.
+    + rewrite <- (app_nil_r (long_tok o)). now apply long_no_dd.
+    + cbn [orb] in Hform. rewrite <- (app_nil_r (short_tok o)). eapply short_no_dd; eauto.
+  - apply andb_prop in H as [H Hform]. apply andb_prop in H as [Hok _]. apply opt_ok_inv in Hok as (_ & _ & Hne & _).
+    destruct form; cbn [render_item existsb]; rewrite ?orb_false_r.
+    + now apply long_no_dd.
+    + rewrite <- (app_nil_r (long_tok o)), (long_no_dd o [] Hne), (plain_no_dd s Hform). reflexivity.
+    + apply andb_prop in Hform as [Hso _]. eapply short_no_dd; eauto.
+    + apply andb_prop in Hform as [Hso Hp]. rewrite <- (app_nil_r (short_tok o)), (short_no_dd g o [] Hso), (plain_no_dd s Hp). reflexivity.
+  - apply andb_prop in H as [H Hform]. apply andb_prop in H as [Hok _]. apply opt_ok_inv in Hok as (_ & _ & Hne & _).
+    destruct long; cbn [render_item existsb]; rewrite orb_false_r.
+    + rewrite <- (app_nil_r (long_tok o)). now apply long_no_dd.
+    + cbn [orb] in Hform. rewrite <- (app_nil_r (short_tok o)). eapply short_no_dd; eauto.
+  - apply andb_prop in H as [Hfl Hlast].
+    assert (forall x, is_dd (group_tok fl ++ x) = false) as Hg.
+    { intros x. destruct fl as [|o1 fl']; [destruct last; discriminate|]. cbn [forallb] in Hfl.
+      apply andb_prop in Hfl as [H1 _]. apply andb_prop in H1 as [_ Hso].
+      unfold group_tok. cbn [flat_map]. change (DASH :: short_char o1 ++ flat_map short_char fl') with (short_tok o1 ++ flat_map short_char fl').
+      rewrite <- app_assoc. eapply short_no_dd; eauto. }
+    destruct last as [[o [s|s|]]|]; cbn [render_item existsb]; rewrite ?orb_false_r.
+    + apply Hg.
+    + rewrite Hg. apply andb_prop in Hlast as [_ Hlast]. unfold last_form in Hlast. cbn [fst snd] in Hlast.
+      apply andb_prop in Hlast as [_ Hgl]. apply andb_prop in Hgl as [Hp _]. rewrite (plain_no_dd s Hp). reflexivity.
+    + apply Hg.
+    + rewrite <- (app_nil_r (group_tok fl)). apply Hg.
+  - cbn [render_item existsb]. rewrite orb_false_r. now apply pos_no_dd.
+Qed.
+Lemma render_items_no_dd f g : forall l, items_form f g l = true -> existsb is_dd (flat_map render_item l) = false.
+Proof.
+  induction l as [|it r IH]; cbn [items_form flat_map]; intros H; [reflexivity|].
+  apply andb_prop in H as [H Hr]. apply andb_prop in H as [Hi _].
+  rewrite existsb_app, (render_item_no_dd f g it Hi), (IH Hr). reflexivity.
+Qed.
+Lemma prefix_no_dd f g cns d k : Spell.names_ok cns (ld_names d) = true -> items_form f g (ld_items d) = true ->
+  existsb is_dd (prefix_toks d k) = false.
+Proof.
+  intros Hn Hit. unfold prefix_toks, render, prefix_line. cbn [ld_names ld_items ld_tail render_tail].
+  rewrite app_nil_r, existsb_app, (render_items_no_dd f g _ (items_form_firstn f g _ k Hit)), orb_false_r.
+  apply names_ok_plain in Hn. induction Hn as [|s r Hs Hr IH]; [reflexivity|]. cbn [existsb]. rewrite (plain_no_dd s Hs). exact IH.
+Qed.
+
+(* for a WELL-FORMED line, as a statement about the parser's own format *)
+Theorem scans_rendered_prefix_lemma f d k : fmt_ok f = true -> wf_line f d = true ->
+  exists g A cns st, aug_format f = Ok (g, A, cns) /\ scans g (prefix_toks d k) st /\ existsb is_dd (prefix_toks d k) = false /\
+                     st = line_state A (prefix_line d k).
+Proof.
+  intros Hf Hwf. destruct (fmt_ok_inv f Hf) as (g & A & cns & FF).
+  destruct (wf_line_forms f d Hwf) as (Hfo & Hfit & _). unfold forms_ok in Hfo. rewrite (ff_aug _ _ _ _ FF) in Hfo.
+  apply andb_prop in Hfo as [Hfo _]. apply andb_prop in Hfo as [Hn Hit].
+  exists g, A, cns, (line_state A (prefix_line d k)). split; [exact (ff_aug _ _ _ _ FF)|]. split; [|split; [|reflexivity]].
+  - apply (scans_rendered_prefix_gen f g A cns d k FF Hn Hit). apply (shape_line_sh f g A cns FF _ _ Hn), fits_shape, Hfit.
+  - exact (prefix_no_dd f g cns d k Hn Hit).
+Qed.
+
+(* ================= 6. clauses 1-3 on line descriptions: ONE extra token at an item boundary of a well-formed line
+   (before the "--" tail) ================= *)
+Section Inserted.
+  Variables (f : fmt) (d : ld) (k : nat).
+  Hypothesis Hf : fmt_ok f = true.
+  Hypothesis Hwf : wf_line f d = true.
+
+  (* an unknown "--name" / "--name=value" / "-x" behind known flags *)
+  Theorem unknown_option_in_line_rejected_lemma name :
+    name <> [] -> ClassifyLemmas.no_eq name = true -> unknown_name f name = true ->
+    parse f false (insert_tok d k (ClassifyLemmas.long_tok name)) = Err NoSuchOption.
+  Proof.
+    intros Hne Hq Hu. destruct (scans_rendered_prefix_lemma f d k Hf Hwf) as (g & A & cns & st & Ha & Hs & Hdd & _).
+    exact (unknown_long_option_listed f g A cns _ st Ha Hs Hdd name _ Hne Hq Hu).
+  Qed.
+  Theorem unknown_option_with_value_in_line_rejected_lemma name value :
+    ClassifyLemmas.no_eq name = true -> unknown_name f name = true ->
+    parse f false (insert_tok d k (ClassifyLemmas.long_tok (name ++ EQ :: value))) = Err NoSuchOption.
+  Proof.
+    intros Hq Hu. destruct (scans_rendered_prefix_lemma f d k Hf Hwf) as (g & A & cns & st & Ha & Hs & Hdd & _).
+    exact (unknown_long_option_eq_listed f g A cns _ st Ha Hs Hdd name value _ Hq Hu).
+  Qed.
+  Theorem unknown_short_option_in_line_rejected_lemma flags c more :
+    starts_dash (flags ++ c :: more) = false -> forallb (ClassifyLemmas.is_flag f) flags = true -> unknown_name f [c] = true ->
+    parse f false (insert_tok d k (ClassifyLemmas.short_tok (flags ++ c :: more))) = Err NoSuchOption.
+  Proof.
+    intros Hd Hfl Hu. destruct (scans_rendered_prefix_lemma f d k Hf Hwf) as (g & A & cns & st & Ha & Hs & Hdd & _).
+    exact (unknown_short_option_listed f g A cns _ st Ha Hs Hdd flags c more _ Hd Hfl Hu).
+  Qed.
+
+  (* "--flag=value" for an option that takes no value *)
+  Theorem flag_with_value_in_line_rejected_lemma o name value :
+    listed f o -> opt_named o name = true -> ClassifyLemmas.no_eq name = true -> o_accepts o = false ->
+    parse f false (insert_tok d k (ClassifyLemmas.long_tok (name ++ EQ :: value))) = Err CannotParse.
+  Proof.
+    intros Hl Hn Hq Hacc. destruct (scans_rendered_prefix_lemma f d k Hf Hwf) as (g & A & cns & st & Ha & Hs & Hdd & _).
+    exact (flag_given_value_listed f g A cns _ st Ha Hs Hdd o name value _ Hl Hn Hq Hacc).
+  Qed.
+
+  (* "--opt" / "-o" (behind known flags) for an option whose value is required, where no value follows: the end of the
+     line, the "--" separator, another option, an empty token or "-" *)
+  Theorem value_missing_in_line_rejected_lemma o name :
+    listed f o -> opt_named o name = true -> name <> [] -> ClassifyLemmas.no_eq name = true -> o_required o = true ->
+    no_value_next (suffix_toks d k) = true ->
+    parse f false (insert_tok d k (ClassifyLemmas.long_tok name)) = Err CannotParse.
+  Proof.
+    intros Hl Hn Hne Hq Hr Hnv. destruct (scans_rendered_prefix_lemma f d k Hf Hwf) as (g & A & cns & st & Ha & Hs & Hdd & _).
+    exact (option_value_missing_listed f g A cns _ st Ha Hs Hdd o name _ Hl Hn Hne Hq Hr Hnv).
+  Qed.
+  Theorem value_empty_in_line_rejected_lemma o name :
+    listed f o -> opt_named o name = true -> ClassifyLemmas.no_eq name = true -> o_required o = true ->
+    parse f false (insert_tok d k (ClassifyLemmas.long_tok (name ++ [EQ]))) = Err CannotParse.
+  Proof.
+    intros Hl Hn Hq Hr. destruct (scans_rendered_prefix_lemma f d k Hf Hwf) as (g & A & cns & st & Ha & Hs & Hdd & _).
+    exact (option_value_empty_listed f g A cns _ st Ha Hs Hdd o name _ Hl Hn Hq Hr).
+  Qed.
+  Theorem short_value_missing_in_line_rejected_lemma o flags c :
+    listed f o -> o_short o = Some [c] -> o_required o = true ->
+    starts_dash (flags ++ [c]) = false -> forallb (ClassifyLemmas.is_flag f) flags = true ->
+    no_value_next (suffix_toks d k) = true ->
+    parse f false (insert_tok d k (ClassifyLemmas.short_tok (flags ++ [c]))) = Err CannotParse.
+  Proof.
+    intros Hl Hsh Hr Hd Hfl Hnv. destruct (scans_rendered_prefix_lemma f d k Hf Hwf) as (g & A & cns & st & Ha & Hs & Hdd & _).
+    exact (short_option_value_missing_listed f g A cns _ st Ha Hs Hdd o flags c _ Hl Hsh Hr Hd Hfl Hnv).
+  Qed.
+End Inserted.
+
+(* ---------- non-vacuity of the bridge and of clauses 1-3 on a well-formed line: D1 of SpellExamples,
+   srv add --verbose h1 --num=-5 -tx -vqt y 8080 -c --tag z --level -- -a "" b   (items 0..8, then the tail) ---------- *)
+Module InsertExamples.
+  Import SpellExamples LineExamples.
+  Example D1_prefix_scans : exists g A cns st, aug_format F1 = Ok (g, A, cns) /\ scans g (prefix_toks D1 7) st /\
+    existsb is_dd (prefix_toks D1 7) = false /\ st = line_state A (prefix_line D1 7).
+  Proof. exact (scans_rendered_prefix_lemma F1 D1 7 F1_ok D1_wf). Qed.
+  Example D1_prefix_tokens : prefix_toks D1 7 = [s "srv"; s "add"; s "--verbose"; s "h1"; s "--num=-5"; s "-tx"; s "-vqt"; s "y"; s "8080"; s "-c"] /\
+                             suffix_toks D1 7 = [s "--tag"; s "z"; s "--level"; s "--"; s "-a"; s ""; s "b"].
+  Proof. split; vm_compute; reflexivity. Qed.
+
+  (* an unknown option right behind "-c", whose optional value is omitted *)
+  Example unknown_long_inserted :
+    insert_tok D1 7 (s "--nope") = [s "srv"; s "add"; s "--verbose"; s "h1"; s "--num=-5"; s "-tx"; s "-vqt"; s "y"; s "8080"; s "-c";
+                                    s "--nope"; s "--tag"; s "z"; s "--level"; s "--"; s "-a"; s ""; s "b"] /\
+    parse F1 false (insert_tok D1 7 (s "--nope")) = Err NoSuchOption.
+  Proof.
+    split; [vm_compute; reflexivity|].
+    apply (unknown_option_in_line_rejected_lemma F1 D1 7 F1_ok D1_wf (s "nope")); [discriminate|vm_compute; reflexivity..].
+  Qed.
+  Example unknown_long_with_value_inserted : parse F1 false (insert_tok D1 0 (s "--nope=1")) = Err NoSuchOption.
+  Proof. apply (unknown_option_with_value_in_line_rejected_lemma F1 D1 0 F1_ok D1_wf (s "nope") (s "1")); vm_compute; reflexivity. Qed.
+  (* "-vz": z behind the known flag v, in front of the group -vqt *)
+  Example unknown_short_inserted : parse F1 false (insert_tok D1 4 (s "-vz")) = Err NoSuchOption.
+  Proof. apply (unknown_short_option_in_line_rejected_lemma F1 D1 4 F1_ok D1_wf (s "v") 122%N []); vm_compute; reflexivity. Qed.
+  (* a value for the flag --quiet, at the very beginning of the items *)
+  Example flag_with_value_inserted : parse F1 false (insert_tok D1 0 (s "--quiet=1")) = Err CannotParse.
+  Proof.
+    apply (flag_with_value_in_line_rejected_lemma F1 D1 0 F1_ok D1_wf o_quiet (s "quiet") (s "1"));
+      [vm_compute; tauto|vm_compute; reflexivity..].
+  Qed.
+  (* "--num" without value: at the end of the items (the "--" separator follows), and in front of another option *)
+  Example value_missing_inserted_at_end : suffix_toks D1 9 = [s "--"; s "-a"; s ""; s "b"] /\
+    parse F1 false (insert_tok D1 9 (s "--num")) = Err CannotParse.
+  Proof.
+    split; [vm_compute; reflexivity|].
+    apply (value_missing_in_line_rejected_lemma F1 D1 9 F1_ok D1_wf o_num (s "num"));
+      [vm_compute; tauto|vm_compute; reflexivity|discriminate|vm_compute; reflexivity..].
+  Qed.
+  Example value_missing_inserted_before_option : parse F1 false (insert_tok D1 2 (s "--num")) = Err CannotParse.
+  Proof.
+    apply (value_missing_in_line_rejected_lemma F1 D1 2 F1_ok D1_wf o_num (s "num"));
+      [vm_compute; tauto|vm_compute; reflexivity|discriminate|vm_compute; reflexivity..].
+  Qed.
+  (* ... at the very end of a line without "--" tail *)
+  Example value_missing_inserted_last : insert_tok D2 5 (s "--tag") = render D2 ++ [s "--tag"] /\
+    parse F1 false (insert_tok D2 5 (s "--tag")) = Err CannotParse.
+  Proof.
+    split; [vm_compute; reflexivity|].
+    apply (value_missing_in_line_rejected_lemma F1 D2 5 F1_ok (proj1 D2_parses) o_tag (s "tag"));
+      [vm_compute; tauto|vm_compute; reflexivity|discriminate|vm_compute; reflexivity..].
+  Qed.
+  Example value_empty_inserted : parse F1 false (insert_tok D1 5 (s "--num=")) = Err CannotParse.
+  Proof.
+    apply (value_empty_in_line_rejected_lemma F1 D1 5 F1_ok D1_wf o_num (s "num")); [vm_compute; tauto|vm_compute; reflexivity..].
+  Qed.
+  Example short_value_missing_inserted : parse F1 false (insert_tok D1 9 (s "-vqn")) = Err CannotParse.
+  Proof.
+    apply (short_value_missing_in_line_rejected_lemma F1 D1 9 F1_ok D1_wf o_num (s "vq") 110%N);
+      [vm_compute; tauto|vm_compute; reflexivity..].
+  Qed.
+  (* what no_value_next excludes: "--num" in front of the positional 8080 takes it as its value; what remains is another
+     line, judged on its own - here "-a" moves to the port: ValueError, not the CannotParse of this clause *)
+  Example value_found_instead : no_value_next (suffix_toks D1 5) = false /\
+    parse F1 false (insert_tok D1 5 (s "--num")) = Err ValueError.
+  Proof. split; vm_compute; reflexivity. Qed.
+End InsertExamples.
